@@ -58,7 +58,7 @@ theorem fireTimeout_nas {db : DB} (ha : InvA db) (hid : Nat) : NAS (fireTimeout 
   simp only []
   split
   · exact wake_nas (((ha.modR_irrel hid _ (irrel_timeouted true)).rollback hid).ctrMod _) _ _ (NAS_mk_ne _ _ _ _ _ (by decide))
-  · exact NAS_mk_ne _ _ _ _ _ (by decide)
+  · exact wake_nas (ha.dropWaiter hid) _ _ (NAS_mk_ne _ _ _ _ _ (by decide))
 
 theorem fireExpire_nas {db : DB} (ha : InvA db) (hid : Nat) : NAS (fireExpire db hid).2 := by
   unfold fireExpire
@@ -186,7 +186,7 @@ theorem opLock_own {db : DB} (ha : InvA db) (c : Cmd) : Own c (opLock db c).2 :=
   | ackWaiting h => unfold applyLock; exact Own_mk _ _ _ _ _
   | relockRefused h => unfold applyLock; exact Own_mk _ _ _ _ _
   | timeout => unfold applyLock; exact Own_mk _ _ _ _ _
-  | relock h => unfold applyLock; simp only []; exact Own_mk _ _ _ _ _
+  | relock h => unfold applyLock; simp only []; exact wake_own (ha.relockHold c h (classifyLock_relock ha e)) c _ _ (Own_mk _ _ _ _ _)
   | queue => unfold applyLock; simp only []; intro rp hr; simp at hr
   | grant =>
     obtain ⟨r0, f0, f1, _⟩ := newRec_findR ha c
